@@ -92,6 +92,41 @@ def run(tier, seed, replay=None):
                                       f"from PYTHONHASHSEED={base_hs}")
                     else:
                         chk.nontrivial.add((p, hs))
+        # ---- (1b) the order of a DFA state's transition list (a Python set's iteration order) must not matter:
+        #          every text is analysed again with all transition lists reversed
+        from codelimit.common.gsm import matcher as _matcher
+        orig_n2d = _matcher.nfa_to_dfa
+
+        def reversed_n2d(nfa):
+            dfa = orig_n2d(nfa)
+            seen, stack = set(), [dfa.start]
+            while stack:
+                st = stack.pop()
+                if id(st) in seen:
+                    continue
+                seen.add(id(st))
+                st.transition.reverse()
+                stack.extend(t[1] for t in st.transition)
+            return dfa
+        texts = []
+        for lang in LC.LANGS:
+            for i in range(25 if tier == "quick" else 400):
+                texts.append((lang, progen.generate(seed * 29 + i, lang, {"long_bodies": False})["text"]))
+            texts += [(lang, t) for t in malform.SPECIALS]
+        for lang, text in texts:
+            a = LC.guarded(lambda: LC.impl_scan(lang, text))
+            _matcher.nfa_to_dfa = reversed_n2d
+            try:
+                b = LC.guarded(lambda: LC.impl_scan(lang, text))
+            finally:
+                _matcher.nfa_to_dfa = orig_n2d
+            chk.evaluations += 1
+            chk.count("transition order reversed")
+            if a != b:
+                chk.violation({"language": lang, "text": text},
+                              f"{lang}: the result depends on the order of a matcher state's transitions (a set's iteration order): {str(a)[:120]} vs {str(b)[:120]}")
+            elif a[0] == 0 and a[1]:
+                chk.nontrivial.add(("rev", lang, text[:40]))
         # ---- (2) two scans of the same tree under different traversal orders
         from codelimit.common import Scanner
         real_walk = os.walk
@@ -105,6 +140,12 @@ def run(tier, seed, replay=None):
                 os.makedirs(d, exist_ok=True)
                 with open(os.path.join(d, f"f{i}.{LC.EXT[lang]}"), "w") as f:
                     f.write(p["text"])
+            # names without extension: some are recognised by their full name (BUILD, SConstruct -> Python), some are not
+            for nm in rng.sample(["BUILD", "deploy", "SConstruct", "run", "WORKSPACE", "Makefile", "x"], rng.randint(1, 4)):
+                d = os.path.join(root, *rng.sample(["a", "b", "c"], rng.randint(0, 1)))
+                os.makedirs(d, exist_ok=True)
+                with open(os.path.join(d, nm), "w") as f:
+                    f.write("def f():\n    x = 1\n    return x\n")
             reports = []
             for perm in range(3):
                 def shuffled(top, _p=perm):
@@ -125,8 +166,21 @@ def run(tier, seed, replay=None):
                 finally:
                     Scanner.os = orig_os
                 reports.append(rep)
-            chk.evaluations += 3
-            chk.count("tree scanned under 3 traversal orders")
+            # ... and by a fresh process that has analysed nothing before (state leaking between scans)
+            shutil.rmtree(os.path.join(root, ".codelimit_cache"), ignore_errors=True)
+            env = dict(os.environ, PYTHONPATH=REPO, LC_ALL="C", PYTHONDONTWRITEBYTECODE="1", COLUMNS="200")
+            sp = subprocess.run(["/venv/bin/python", "-m", "codelimit", "scan", root], capture_output=True, text=True, env=env, timeout=300)
+            try:
+                with open(F.cache_path(root)) as f:
+                    fresh_proc = F.canonical(json.load(f))
+                if fresh_proc != reports[0]:
+                    chk.violation({"tree": t, "files": sorted(os.listdir(root))},
+                                  "a scan in a fresh process differs from the scan made after other scans in this process: "
+                                  + str(sorted(set(fresh_proc["codebase"]["files"]) ^ set(reports[0]["codebase"]["files"]))))
+            except (OSError, ValueError):
+                chk.violation({"tree": t}, f"`codelimit scan` in a fresh process failed: {sp.stderr[-200:]}")
+            chk.evaluations += 4
+            chk.count("tree scanned under 3 traversal orders + fresh process")
             if not (reports[0] == reports[1] == reports[2]):
                 chk.violation({"tree": t}, "two scans of the same tree under different traversal orders differ beyond identifier, "
                                           "timestamp and file order")
